@@ -128,6 +128,9 @@ func checkC06(r *Run) {
 	r.NotDec = "flag/pool contents for a concrete interleaving"
 	ruleNoCrossedConfig(r, "C06-R0")
 	ruleHardBeforeSoft(r, "C06-R1")
+	ruleTransactionIsLocked(r, "C06-R1")
+	ruleUserConstraints(r, "C06-R1")
+	ruleKnownTxnVerdictRefreshed(r, "C06-R1")
 	ruleVerifyParamsSites(r, "C06-R1")
 	// R1
 	n := 0
